@@ -1692,3 +1692,111 @@ def replay(ctx, rep):   # noqa: F811
         pye()
         return common.scenario_replay(ctx, rep, {'falsy': falsy_target_scenarios})
     return _replay_main7(ctx, rep)
+
+
+# ---------------------------------------------------------------------------
+# the target resource CHANGES SHAPE between two follows: references written while it had several roots (fragments
+# '/<n>/...'), one followed (the target is loaded on demand), then roots removed / added / reordered in the loaded
+# target, then the not-yet-followed references followed (oracle on the implementation only)
+
+def reshaped_target_scenarios(ctx, out):
+    import tempfile as _tf
+    from pyecore.ecore import EClass, EAttribute, EReference, EString, EPackage
+    from pyecore.resources import ResourceSet, URI
+    from pyecore.resources.json import JsonResource
+    rng = common.rng_for(ctx.seed, 'C14:reshaped')
+    n = 24 if ctx.tier != 'thorough' else 300
+    cnt = 0
+    for it in range(n):
+        fmt = 'xmi' if it % 2 == 0 else 'json'
+        pkg = EPackage('p', nsURI=f'http://verif/c14/reshaped/{it}', nsPrefix='p')
+        N = EClass('N')
+        N.eStructuralFeatures.append(EAttribute('name', EString))
+        N.eStructuralFeatures.append(EReference('kids', N, upper=-1, containment=True))
+        N.eStructuralFeatures.append(EReference('one', N))
+        N.eStructuralFeatures.append(EReference('many', N, upper=-1, unique=False))
+        pkg.eClassifiers.append(N)
+
+        def new_rset():
+            rs = ResourceSet()
+            rs.metamodel_registry[pkg.nsURI] = pkg
+            if fmt == 'json':
+                rs.resource_factory['json'] = lambda uri: JsonResource(uri)
+            return rs
+        nroots = rng.choice([2, 2, 3])
+        hist = {'format': fmt, 'roots': nroots}
+        case = {'scenario': 'reshaped', 'seed': ctx.seed, 'tier': ctx.tier, 'history': hist}
+        sig = {'property': 'C14', 'clause': None, 'scenario': 'reshaped', 'format': fmt}
+        try:
+            with _tf.TemporaryDirectory() as tmp:
+                pa, pb = os.path.join(tmp, 'd1', 'a.' + fmt), os.path.join(tmp, 'd2', 'b.' + fmt)
+                os.makedirs(os.path.dirname(pa))
+                os.makedirs(os.path.dirname(pb))
+                rs = new_rset()
+                ra, rb = rs.create_resource(URI(pa)), rs.create_resource(URI(pb))
+                a = N(name='a')
+                ra.append(a)
+                pool = []
+                for r in range(nroots):
+                    root = N(name=f'r{r}')
+                    for k in range(2):
+                        root.kids.append(N(name=f'r{r}.k{k}'))
+                    rb.append(root)
+                    pool += [root] + list(root.kids)
+                keep_root = rng.randrange(nroots)         # references go into this root's tree only
+                inside = [o for o in pool if o.name.startswith(f'r{keep_root}')]
+                a.one = rng.choice(inside)
+                a.many.extend(rng.choice(inside) for _ in range(3))
+                hist['targets'] = [a.one.name] + [x.name for x in a.many]
+                ra.save()
+                rb.save()
+                rs2 = new_rset()
+                la = rs2.get_resource(URI(pa)).contents[0]
+                first = la.one.name                      # the target resource is loaded on demand now
+                lb = rs2.get_resource(URI(pb))
+                edit = rng.choice(['remove-others', 'remove-one-other', 'add-root-front-no', 'none'])
+                hist['edit'] = edit
+                others = [r for r in list(lb.contents) if r.name != f'r{keep_root}']
+                if edit == 'remove-others':
+                    for r in others:
+                        lb.remove(r)
+                elif edit == 'remove-one-other' and others:
+                    lb.remove(others[-1]) if lb.contents[-1] is others[-1] else None
+                cnt += 1
+                got = [first] + [x.name for x in la.many]
+                # (positions of the kept root may have shifted when an EARLIER root left: a reference is then stale by
+                #  design; only the cases in which the kept root keeps its position are judged)
+                pos_now = next(i for i, r in enumerate(lb.contents) if r.name == f'r{keep_root}')
+                if pos_now == keep_root and got != hist['targets']:
+                    sig['clause'] = 'reference-after-reshaping-reaches-another-object'
+                    out.fail(sig, f'references saved to {hist["targets"]}; after the target lost roots ({edit}; the kept root still at '
+                                  f'position {pos_now}) they reach {got}', case)
+        except Exception as e:  # noqa
+            hist['raised'] = type(e).__name__
+            pos_ok = True
+            try:
+                pos_ok = next(i for i, r in enumerate(lb.contents) if r.name == f'r{keep_root}') == keep_root
+            except Exception:  # noqa
+                pass
+            if pos_ok:
+                sig['clause'] = 'reshaped-raised'
+                out.fail(sig, f'{type(e).__name__}: {e}', case)
+    out.coverage['references_followed_after_target_reshaped'] = cnt
+
+
+_run_main8 = run
+
+
+def run(ctx, out):   # noqa: F811
+    _run_main8(ctx, out)
+    reshaped_target_scenarios(ctx, out)
+
+
+_replay_main8 = replay
+
+
+def replay(ctx, rep):   # noqa: F811
+    if rep.get('case', {}).get('scenario') == 'reshaped':
+        pye()
+        return common.scenario_replay(ctx, rep, {'reshaped': reshaped_target_scenarios})
+    return _replay_main8(ctx, rep)
